@@ -48,7 +48,8 @@ PROPS = {
                 "mutex types, under generated schedules with modelled mutexes. A vector-clock monitor flags any unordered pair of payload accesses, a last-write model flags lost updates and stale "
                 "reads, the scheduler flags deadlock, and a final acquisition flags leaked locks. Exploration within the generated bound.",
         "assumptions": ["vrt mutex model follows [thread.mutex]: non-recursive, no fairness, try_lock never fails spuriously", "programs bounded to 4 fibers x 4 (quick) / 6 (thorough) operations"],
-        "stages": [{"family": "locks", "flavour": "plain", "target": "C01", "cases": (400000, 6000000), "maxsec": (40, 400)}],
+        "stages": [{"family": "locks", "flavour": "plain", "target": "C20g", "cases": (150000, 2000000), "maxsec": (20, 200)},
+                   {"family": "locks", "flavour": "plain", "target": "C01", "cases": (400000, 6000000), "maxsec": (40, 400)}],
     },
     "C02": {
         "level": "exploration",
@@ -69,7 +70,8 @@ PROPS = {
                 "is destroyed exactly once. Exploration only.",
         "assumptions": ["the shared_ptr copy inside the left-right read section is real (unmodelled) code: protocol errors there are the business of C03 and of the real-thread stage",
                         "payload destruction is exempt from the happens-before check because reference counts are unmodelled; liveness is still checked"],
-        "stages": [{"family": "lrcow", "flavour": "plain", "target": "C04", "cases": (600000, 8000000), "maxsec": (40, 400)},
+        "stages": [{"family": "lrcow", "flavour": "plain", "target": "C20cow", "cases": (150000, 2000000), "maxsec": (20, 200)},
+                   {"family": "lrcow", "flavour": "plain", "target": "C04", "cases": (600000, 8000000), "maxsec": (40, 400)},
                    {"family": "rt", "flavour": "tsan", "target": "RTcow", "cases": (6000, 150000), "maxsec": (20, 400), "stochastic": True, "min_nontrivial_frac": 0.5}],
     },
     "C05": {
@@ -80,7 +82,8 @@ PROPS = {
                 "allocator, every modelled atomic and every iterator dereference checks that it does not touch a freed block, and each node deallocation is checked against the set of handles that were "
                 "registered before the erase. Exploration only.",
         "assumptions": ["'in use when the erase happened' is read as: the handle's first access returned before erase() was called", "4 fibers x 4/6 operations, lists of <= ~10 elements"],
-        "stages": [{"family": "rcu", "flavour": "plain", "target": "C05", "cases": (600000, 8000000), "maxsec": (45, 420)}],
+        "stages": [{"family": "rcu", "flavour": "plain", "target": "C05f", "cases": (150000, 2000000), "maxsec": (20, 200)},
+                   {"family": "rcu", "flavour": "plain", "target": "C05", "cases": (600000, 8000000), "maxsec": (45, 420)}],
     },
     "C09": {
         "level": "exploration",
@@ -116,7 +119,8 @@ PROPS = {
         "text": "Generated add / shared add / duplicate add / drop-owner / destroyObjects / destroyObjects(delay) / size sequences run on DelayedDestructor and DelayedDestructorSingleThread with optional callbacks; "
                 "element destructors and callbacks re-enter the container (size, add, destroyObjects). The modelled timed_mutex flags any callback or destructor under the lock and any self-deadlock. Exploration only.",
         "assumptions": ["re-entry is not generated while the container itself is being destroyed; weak_ptr resurrection is out of scope", "a missing lock around the std::vector is invisible to the fiber runtime (no scheduling point inside): that class of change is the real-thread/TSan stage's job"],
-        "stages": [{"family": "containers", "flavour": "plain", "target": "C16s", "cases": (300000, 4000000), "maxsec": (30, 300)},
+        "stages": [{"family": "containers", "flavour": "plain", "target": "C20dd", "cases": (150000, 2000000), "maxsec": (20, 200)},
+                   {"family": "containers", "flavour": "plain", "target": "C16s", "cases": (300000, 4000000), "maxsec": (30, 300)},
                    {"family": "containers", "flavour": "plain", "target": "C16", "cases": (400000, 6000000), "maxsec": (40, 400)},
                    {"family": "rt", "flavour": "tsan", "target": "RTdd", "cases": (6000, 150000), "maxsec": (20, 400), "stochastic": True, "min_nontrivial_frac": 0.5}],
     },
@@ -127,7 +131,8 @@ PROPS = {
         "text": "Generated add / addType / copy / remove(name) / remove(predicate) / find / findObject(pred[,type]) / checkObjectType / getObjects / empty sequences are checked call by call against a map model in an "
                 "ASan+UBSan build (memory safety of every sequence), and generated 3-fiber histories plus a final complete observation are searched for a linearization. Exploration only.",
         "assumptions": ["addType is only generated on names that are present and never removed (the property does not specify orphan tags)", "tags compared as sets over {0,1,2}"],
-        "stages": [{"family": "containers", "flavour": "asan", "target": "C17s", "cases": (60000, 1000000), "maxsec": (40, 400)},
+        "stages": [{"family": "containers", "flavour": "plain", "target": "C20soh", "cases": (150000, 2000000), "maxsec": (20, 200)},
+                   {"family": "containers", "flavour": "asan", "target": "C17s", "cases": (60000, 1000000), "maxsec": (40, 400)},
                    {"family": "containers", "flavour": "plain", "target": "C17s", "cases": (300000, 3000000), "maxsec": (30, 300)},
                    {"family": "containers", "flavour": "plain", "target": "C17", "cases": (300000, 4000000), "maxsec": (40, 400)},
                    {"family": "rt", "flavour": "tsan", "target": "RTsoh", "cases": (6000, 150000), "maxsec": (20, 400), "stochastic": True, "min_nontrivial_frac": 0.5}],
@@ -185,7 +190,8 @@ PROPS = {
                 "count, exclusivity, order against returned-before-called pairs, and the state after quiescence plus one lock_shared (all executed once, value = all bits, futures ready with value or "
                 "exception) are checked. Exploration only.",
         "assumptions": ["real std::packaged_task/future objects are used but never blocked on (only inspected after quiescence)"],
-        "stages": [{"family": "deferred", "flavour": "plain", "target": "C06", "cases": (600000, 8000000), "maxsec": (40, 400)}],
+        "stages": [{"family": "deferred", "flavour": "plain", "target": "C20d", "cases": (150000, 2000000), "maxsec": (20, 200)},
+                   {"family": "deferred", "flavour": "plain", "target": "C06", "cases": (600000, 8000000), "maxsec": (40, 400)}],
     },
     "C08": {
         "level": "exploration",
@@ -214,7 +220,8 @@ PROPS = {
         "text": "Generated load/store/assignment/exchange/compare_exchange histories on atomic_guarded and load/store/assignment on guarded, guarded_opt, ordered_guarded, deferred_guarded under generated "
                 "schedules; a Tracked payload makes torn copies observable. Exploration only.",
         "assumptions": ["values from a small domain", "2-4 fibers x <= 6 operations"],
-        "stages": [{"family": "locks", "flavour": "plain", "target": "C15g", "cases": (300000, 4000000), "maxsec": (40, 400)},
+        "stages": [{"family": "atomicreg", "flavour": "plain", "target": "C20a", "cases": (150000, 2000000), "maxsec": (20, 200)},
+                   {"family": "locks", "flavour": "plain", "target": "C15g", "cases": (300000, 4000000), "maxsec": (40, 400)},
                    {"family": "deferred", "flavour": "plain", "target": "C15d", "cases": (300000, 4000000), "maxsec": (30, 300)},
                    {"family": "atomicreg", "flavour": "plain", "target": "C15as", "cases": (400000, 4000000), "maxsec": (20, 200)},
                    {"family": "atomicreg", "flavour": "plain", "target": "C15a", "cases": (400000, 6000000), "maxsec": (30, 300)},
